@@ -525,11 +525,10 @@ def _dict_array_comp(data):
             value = _dict_array_comp(value)
 
         # Get arrays back.
-        if '__array' in key:
-            arraytype = key.split('__')[-1]
-            dtype = getattr(np, arraytype[6:])
+        if '__array-' in key:
+            key, arraytype = key.rsplit('__array-', 1)
+            dtype = getattr(np, arraytype)
             value = np.asarray(value, dtype=dtype, order='F')
-            key = key.replace(key[-len(arraytype)-2:], '')
 
         # Compose complex numbers.
         if '__complex' in key:
